@@ -263,40 +263,39 @@ def appendBufferOpen (w : World) (q : Cq) (d : Bytes) : World × Cq :=
   (w, pushChunk q (.mem d 0 (extendCap 0 cap d.length)) d.length)
 
 /-- chunkqueue_get_memory(req) followed by chunkqueue_use_memory(ckpt = old
-    last, min(use, avail)); `gen n` are the n bytes the caller stores.
-    Returns the available size reported by get_memory. -/
-def getUseMemory (w : World) (q : Cq) (req use : Nat) (gen : Nat → Bytes) : World × Cq × Nat :=
+    last, n) where n = min(|data|, avail) bytes of `data` were stored by the
+    caller.  Returns the available size reported by get_memory. -/
+def getUseMemory (w : World) (q : Cq) (req : Nat) (data : Bytes) : World × Cq × Nat :=
   let sz := if req = 0 then w.cs / 2 else req
   let fits : Option (Bytes × Nat × Nat) :=
     match q.chunks.getLast? with
-    | some (.mem data off cap) => if space data.length cap ≥ sz then some (data, off, cap) else none
+    | some (.mem old off cap) => if space old.length cap ≥ sz then some (old, off, cap) else none
     | _ => none
   match fits with
-  | some (data, off, cap) =>
+  | some (old, off, cap) =>
     -- pointer into the existing last chunk; ckpt == cq->last
-    let avail := space data.length cap
-    let n := min use avail
-    if n = 0 then (w, q, avail)
-    else (w, { q with chunks := setLast q.chunks (.mem (data ++ gen n) off cap),
-                      bytesIn := q.bytesIn + n }, avail)
+    let avail := space old.length cap
+    let d := data.take avail
+    if d.length = 0 then (w, q, avail)
+    else (w, { q with chunks := setLast q.chunks (.mem (old ++ d) off cap),
+                      bytesIn := q.bytesIn + d.length }, avail)
   | none =>
     let (w, cap) := acquire w sz
     let avail := space 0 cap
-    let n := min use avail
-    if n = 0 then
+    let d := data.take avail
+    if d.length = 0 then
       -- remove the empty new chunk again
       (release w (.mem [] 0 cap), q, avail)
     else
-      let d := gen n
       match q.chunks.getLast? with
-      | some (.mem data off pcap) =>
-        if n > space data.length pcap then (w, pushChunk q (.mem d 0 cap) n, avail)
+      | some (.mem old off pcap) =>
+        if d.length > space old.length pcap then (w, pushChunk q (.mem d 0 cap) d.length, avail)
         else
           -- fold the new data into the checkpoint chunk, drop the new chunk
           (release w (.mem d 0 cap),
-           { q with chunks := setLast q.chunks (.mem (data ++ d) off (extendCap data.length pcap n)),
-                    bytesIn := q.bytesIn + n }, avail)
-      | _ => (w, pushChunk q (.mem d 0 cap) n, avail)
+           { q with chunks := setLast q.chunks (.mem (old ++ d) off (extendCap old.length pcap d.length)),
+                    bytesIn := q.bytesIn + d.length }, avail)
+      | _ => (w, pushChunk q (.mem d 0 cap) d.length, avail)
 
 /-- chunkqueue_append_file() / chunkqueue_append_file_fd() -/
 def appendFile (w : World) (q : Cq) (fid off len : Nat) (withFd : Bool) : World × Cq :=
@@ -830,5 +829,113 @@ def appendCqRangeSelf (w : World) (q : Cq) (off len : Nat) : World × Cq :=
 /-- chunkqueue_reset() -/
 def reset (w : World) (q : Cq) : World × Cq :=
   (releaseAll w q.chunks, { q with chunks := [], bytesIn := 0, bytesOut := 0, tdIdx := 0 })
+
+/-! ## the closed system: two queues over one world -/
+
+structure Sys where
+  w : World
+  q0 : Cq
+  q1 : Cq
+
+/-- queue selector: `false` = q0 -/
+def Sys.get (s : Sys) (i : Bool) : Cq := if i then s.q1 else s.q0
+def Sys.set (s : Sys) (i : Bool) (q : Cq) : Sys := if i then { s with q1 := q } else { s with q0 := q }
+
+/-- the operations of the property; `qi` selects the queue operated on (for
+    transfers: the destination, the source being the other queue) -/
+inductive Op where
+  | appendMem (qi : Bool) (d : Bytes)
+  | appendMemMin (qi : Bool) (d : Bytes)
+  | appendBuffer (qi : Bool) (d : Bytes)
+  | appendBufferOpen (qi : Bool) (d : Bytes)
+  | getUseMemory (qi : Bool) (req : Nat) (d : Bytes)
+  | appendFile (qi : Bool) (fid off len : Nat) (withFd : Bool)
+  | appendChunkqueue (qi : Bool)
+  | appendMemToTempfile (qi : Bool) (d : Bytes)
+  | steal (qi : Bool) (n : Nat)
+  | stealWithTempfiles (qi : Bool) (n : Nat)
+  | appendCqRange (qi : Bool) (self : Bool) (off len : Nat)
+  | markWritten (qi : Bool) (n : Nat)
+  | removeFinished (qi : Bool)
+  | removeEmpty (qi : Bool)
+  | compactMem (qi : Bool) (clen : Nat)
+  | compactMemOffset (qi : Bool)
+  | peekData (qi : Bool) (n : Nat)
+  | readData (qi : Bool) (n : Nat)
+  | readSquash (qi : Bool)
+  | reset (qi : Bool)
+
+/-- what an operation reports to its caller -/
+inductive Res where
+  | done
+  | skipped                      -- caller obligation not met: not executed
+  | avail (n : Nat)              -- get_memory: size made available
+  | rc (ok : Bool)               -- 0 / -1 (or non-NULL / NULL)
+  | peeked (ok : Bool) (d : Bytes)
+  | read (d : Option Bytes)
+
+def allMem (q : Cq) : Bool := !q.chunks.isEmpty && q.chunks.all Chunk.isMem
+
+/-- one operation on the system.  The guards are the documented obligations of
+    the callers (chunk.h): they are checked by the correspondence harness in
+    the same way. -/
+def step (s : Sys) : Op → Sys × Res
+  | .appendMem qi d =>
+    let (w, q) := appendMem s.w (s.get qi) d; ({ s with w := w }.set qi q, .done)
+  | .appendMemMin qi d =>
+    let (w, q) := appendMemMin s.w (s.get qi) d; ({ s with w := w }.set qi q, .done)
+  | .appendBuffer qi d =>
+    let (w, q) := appendBuffer s.w (s.get qi) d; ({ s with w := w }.set qi q, .done)
+  | .appendBufferOpen qi d =>
+    let (w, q) := appendBufferOpen s.w (s.get qi) d; ({ s with w := w }.set qi q, .done)
+  | .getUseMemory qi req d =>
+    let (w, q, a) := getUseMemory s.w (s.get qi) req d; ({ s with w := w }.set qi q, .avail a)
+  | .appendFile qi fid off len fd =>
+    let (w, q) := appendFile s.w (s.get qi) fid off len fd; ({ s with w := w }.set qi q, .done)
+  | .appendChunkqueue qi =>
+    let (d, o) := appendChunkqueue (s.get qi) (s.get (!qi)); ((s.set qi d).set (!qi) o, .done)
+  | .appendMemToTempfile qi d =>
+    let (w, q, ok) := appendMemToTempfile s.w (s.get qi) d; ({ s with w := w }.set qi q, .rc ok)
+  | .steal qi n =>
+    let (w, d, o) := steal s.w (s.get qi) (s.get (!qi)) n
+    (({ s with w := w }.set qi d).set (!qi) o, .done)
+  | .stealWithTempfiles qi n =>
+    let (w, d, o, ok) := stealWithTempfiles s.w (s.get qi) (s.get (!qi)) n
+    (({ s with w := w }.set qi d).set (!qi) o, .rc ok)
+  | .appendCqRange qi self off len =>
+    if self then
+      if len > 0 ∧ (off + len : Int) > (s.get qi).length then (s, .skipped)
+      else
+        let (w, q) := appendCqRangeSelf s.w (s.get qi) off len; ({ s with w := w }.set qi q, .done)
+    else
+      let (w, q) := appendCqRange s.w (s.get qi) (s.get (!qi)) off len
+      ({ s with w := w }.set qi q, .done)
+  | .markWritten qi n =>
+    if (n : Int) ≤ (s.get qi).length then
+      let (w, q) := markWritten s.w (s.get qi) n; ({ s with w := w }.set qi q, .done)
+    else (s, .skipped)
+  | .removeFinished qi =>
+    let (w, q) := removeFinished s.w (s.get qi); ({ s with w := w }.set qi q, .done)
+  | .removeEmpty qi =>
+    let (w, q) := removeEmpty s.w (s.get qi); ({ s with w := w }.set qi q, .done)
+  | .compactMem qi clen =>
+    if allMem (s.get qi) then
+      let (w, q) := compactMem s.w (s.get qi) clen; ({ s with w := w }.set qi q, .done)
+    else (s, .skipped)
+  | .compactMemOffset qi =>
+    if (s.get qi).chunks.isEmpty then (s, .skipped) else (s.set qi (compactMemOffset (s.get qi)), .done)
+  | .peekData qi n =>
+    let (w, q, d, ok) := peekData s.w (s.get qi) n; ({ s with w := w }.set qi q, .peeked ok d)
+  | .readData qi n =>
+    let (w, q, d) := readData s.w (s.get qi) n; ({ s with w := w }.set qi q, .read d)
+  | .readSquash qi =>
+    let (w, q, ok) := readSquash s.w (s.get qi); ({ s with w := w }.set qi q, .rc ok)
+  | .reset qi =>
+    let (w, q) := reset s.w (s.get qi); ({ s with w := w }.set qi q, .done)
+
+/-- a whole history of operations -/
+def run (s : Sys) : List Op → Sys
+  | [] => s
+  | op :: ops => run (step s op).1 ops
 
 end LtVerif.Cq
